@@ -312,6 +312,26 @@ def check(rep, F, tier, replay=None):
                         rep.violation("JSON-cast", "%s|%s->%s" % (F.key(base), st[3][3], st[3][4]), "%s converts %s to %s with `as` (%s) while producing / consuming JSON: values outside the target range change silently and do not survive the JSON round trip" % (F.key(base), st[3][3], st[3][4], k), {})
     rep.inst("JSON-cast", n_fn, nontrivial=False)
     rep.floor("JSON conversion functions inspected for lossy casts", 150, n_fn)
+    # INT-parse: what counts as a decimal integer in JSON (typed Int values and, under BasicConversions, metadata map keys)
+    rep.rule("INT-parse", "Int::from_str hands the WHOLE string to one std integer parser (str::parse::<i128>) and does no sign / prefix handling of its own: text that is not a canonical decimal integer stays text (e.g. the metadata key \"-+5\") instead of being read as a number")
+    ids_ = F.by_key("Int::from_str")
+    if len(ids_) != 1:
+        rep.lost("Int::from_str not found")
+    else:
+        rep.inst("INT-parse")
+        tos_ = set()
+        parsers = []
+        for sub_ in [ids_[0]] + [c for c in F.fns if c.startswith(ids_[0] + "::{closure")]:
+            fn_ = F.fns[sub_]
+            for c in F.calls(sub_):
+                t_ = c.to or ""
+                tos_.add(t_)
+                if t_.endswith("<impl str>::parse") or t_.endswith("FromStr>::from_str") or "::from_str_radix" in t_:
+                    parsers.append("%s%s" % (t_, fn_["bbs"][c.bb]["t"][2].get("ga") or ""))
+        parsers = sorted(set(parsers))
+        slicers = sorted(t.rsplit("::", 1)[-1] for t in tos_ if t.rsplit("::", 1)[-1] in ("strip_prefix", "strip_suffix", "trim", "trim_start", "trim_start_matches", "trim_matches", "split_at", "starts_with", "chars", "bytes", "as_bytes", "replace", "split", "find"))
+        if len(parsers) != 1 or "i128" not in parsers[0] or slicers:
+            rep.violation("INT-parse", "Int::from_str|%s|%s" % (",".join(H.short(p_) for p_ in parsers), ",".join(slicers)), "Int::from_str parses with %s%s: a second grammar is stacked on the std parser's own sign handling, so strings such as \"-+5\" are accepted as integers - a JSON metadata key changes from text to a number (and can collide with another key)" % ([H.short(p_) for p_ in parsers], " after handling the sign itself (%s)" % ", ".join(slicers) if slicers else ""), {})
     return rep.finish(
         EXPLANATION,
         ["serde derive output is a faithful field-by-field form", "the registered inverse pairs are inverse functions (their own round trips are C01/C11/C14 clauses)"],
